@@ -134,8 +134,11 @@ def template_fields(ctx):
         gate = None
         spec = v
         if isinstance(v, ast.Call) and strip_mod(ap(v.func) or "") == "CompressedOption":
-            ctx.require(len(v.args) == 2, f"CompressedOption arity for {k.value}")
+            ctx.require(len(v.args) >= 2, f"CompressedOption arity for {k.value}")
             gate = (strip_mod(src(v.args[0])).replace("CompressedFlags.", ""),)
+            # any further argument changes when the section is present: it is part of the gate the fast reader must match
+            gate += tuple(f"arg{i + 2}={strip_mod(src(a))}" for i, a in enumerate(v.args[2:]))
+            gate += tuple(sorted(f"{kw_.arg or '**'}={strip_mod(src(kw_.value))}" for kw_ in v.keywords))
             spec = v.args[1]
         sig, adapters = spec_sig(repo, mod, spec)
         fields.append({"key": k.value, "gate": gate, "sig": sig, "adapters": adapters, "node": v})
@@ -258,6 +261,19 @@ class FastInterp:
                 if last == "read":
                     return self.new(self.spec_ref(n.args[0]))
                 raise AnalysisError(f"C13: unsupported reader call {src(n)}")
+            # dict(zip(<constant tuple of names>, <values read>)): a record of the values, by key
+            if fname == "dict" and len(n.args) == 1 and isinstance(n.args[0], ast.Call) and ap(n.args[0].func) == "zip" \
+                    and len(n.args[0].args) == 2:
+                kn, vn = n.args[0].args
+                kp = ap(kn) or ""
+                knode = self.cls_attr(kp[4:]) if kp.startswith("cls.") or kp.startswith("self.") else kn
+                keys = self.ev.ev(knode)
+                vals = self.expr(vn)
+                if isinstance(keys, (tuple, list)) and all(isinstance(k_, str) for k_ in keys) and isinstance(vals, list):
+                    if len(keys) != len(vals):
+                        raise AnalysisError(f"C13: {src(n)}: {len(vals)} values for {len(keys)} keys")
+                    return Rec(zip(keys, vals))
+                raise AnalysisError(f"C13: {src(n)}: key table is not a constant tuple of names")
             # NamedTuple._make(<values read>) / NamedTuple(*<values read>): a record of the values, by field name
             rci = self.repo.resolve_class(fname[:-len("._make")] if last == "_make" else fname, self.fi.module) if fname else None
             if rci is not None and record_fields(self.repo, rci) is not None and n.args:
@@ -352,6 +368,10 @@ class FastInterp:
                     if isinstance(e, ast.Constant):
                         self.endians.add(e.value)
                     continue
+                inl = self._inline_rewrap_helper(tgt, st.value)
+                if inl is not None:
+                    self.block(inl)
+                    continue
                 self.assign(tgt, self.expr(st.value))
             elif isinstance(st, ast.If):
                 g = self.gate_of(st.test)
@@ -406,6 +426,64 @@ class FastInterp:
             else:
                 raise AnalysisError(f"C13: unsupported statement {type(st).__name__} in fast reader (line {st.lineno})")
 
+    def _inline_rewrap_helper(self, tgt, call):
+        """`x = cls._helper(a, b)` where the helper is a chain of `if <test>: return <wrap(value)>` ending in
+        `return <value>`: the same conditional re-wrapping written inline (`x = b; if ..: x = wrap(x) elif ..`)."""
+        if not (isinstance(tgt, ast.Name) and isinstance(call, ast.Call) and isinstance(call.func, ast.Attribute)
+                and isinstance(call.func.value, ast.Name) and call.func.value.id in ("cls", "self")):
+            return None
+        m = self.repo.lookup_method(self.ci, call.func.attr)
+        if m is None or call.keywords:
+            return None
+        body = [x for x in m.node.body if not (isinstance(x, ast.Expr) and isinstance(x.value, ast.Constant))]
+        if len(body) < 2 or not isinstance(body[-1], ast.Return) or body[-1].value is None:
+            return None
+        arms = []
+        for x in body[:-1]:
+            if not (isinstance(x, ast.If) and not x.orelse and len(x.body) == 1 and isinstance(x.body[0], ast.Return)
+                    and x.body[0].value is not None):
+                return None
+            arms.append((x.test, x.body[0].value))
+        params = [a.arg for a in m.node.args.args]
+        if any((ap(d) or "") == "staticmethod" for d in m.node.decorator_list):
+            recv = None
+        else:
+            recv, params = params[0], params[1:]
+        if len(params) != len(call.args):
+            return None
+        rets = [e for _, e in arms] + [body[-1].value]
+        value_params = [p_ for p_ in params if all(any(isinstance(n_, ast.Name) and n_.id == p_ for n_ in ast.walk(e)) for e in rets)]
+        if len(value_params) != 1 or not (isinstance(body[-1].value, ast.Name) and body[-1].value.id == value_params[0]):
+            return None
+        vp = value_params[0]
+        mapping = {p_: a for p_, a in zip(params, call.args)}
+
+        def sub(e):
+            e = clone_ast(e)
+
+            class _S(ast.NodeTransformer):
+                def visit_Name(self_, node):
+                    if node.id == vp:
+                        return ast.copy_location(ast.Name(id=tgt.id, ctx=node.ctx), node)
+                    if node.id in mapping:
+                        return clone_ast(mapping[node.id])
+                    if recv is not None and node.id == recv:
+                        return ast.copy_location(ast.Name(id="cls", ctx=node.ctx), node)
+                    return node
+            return ast.fix_missing_locations(_S().visit(e))
+        first = ast.copy_location(ast.Assign(targets=[ast.Name(id=tgt.id, ctx=ast.Store())], value=clone_ast(mapping[vp])), call)
+        chain = []
+        for test, e in reversed(arms):
+            node = ast.If(test=sub(test), body=[ast.Assign(targets=[ast.Name(id=tgt.id, ctx=ast.Store())], value=sub(e))], orelse=chain)
+            chain = [ast.copy_location(node, call)]
+        out = [first] + chain
+        for o in out:
+            ast.fix_missing_locations(o)
+        from ..core import set_parents
+        for o in out:
+            set_parents(o)
+        return out
+
     def _adapter_if(self, st):
         """if/elif on already-read values that only re-wraps values (State adapters)."""
         for sub in (st.body, st.orelse):
@@ -447,9 +525,14 @@ def run(ctx):
     fast = []
     ret_items = []
     for k, v in zip(interp.ret.keys, interp.ret.values):
+        rec_name = None
         if k is None and isinstance(v, ast.Call) and isinstance(v.func, ast.Attribute) and v.func.attr == "_asdict" \
-                and isinstance(v.func.value, ast.Name) and isinstance(interp.env.get(v.func.value.id), Rec):
-            for fname_, fval in interp.env[v.func.value.id].items():
+                and isinstance(v.func.value, ast.Name):
+            rec_name = v.func.value.id
+        elif k is None and isinstance(v, ast.Name):
+            rec_name = v.id
+        if rec_name is not None and isinstance(interp.env.get(rec_name), Rec):
+            for fname_, fval in interp.env[rec_name].items():
                 ret_items.append((ast.copy_location(ast.Constant(value=fname_), v), fval, v))
             continue
         ret_items.append((k, None, v))
@@ -542,6 +625,30 @@ def run(ctx):
     ctx.ob("C13.R2", "CompressedOption switches on the field the fast reader tests",
            flag_field == "Flags" and "Flags" in by_key and by_key["Flags"]["val"].toks ==
            interp.env.get("flags", Val([])).toks, where)
+    # the fast reader's NUL-terminated read scans to the terminator without a length bound: the template's CStr /
+    # BytesTerminated has none, so a bound here rejects (or cuts) strings the template decodes
+    rnt = repo.lookup_method(repo.cls("SimpleStructReader", OBJ), "read_bytes_null_term")
+    ctx.require(rnt is not None, "SimpleStructReader.read_bytes_null_term vanished")
+    bounded = []
+    for c in calls(rnt.node):
+        if isinstance(c.func, ast.Attribute) and c.func.attr in ("find", "index", "rfind", "rindex") and \
+                (len(c.args) >= 3 or any(k_.arg in ("end", "__end") for k_ in c.keywords)):
+            bounded.append(norm(c))
+        if isinstance(c.func, ast.Attribute) and c.func.attr in ("split", "partition") and len(c.args) >= 2:
+            bounded.append(norm(c))
+    for w in [n for n in walk(rnt.node) if isinstance(n, ast.While)]:
+        ats = atoms(w.test, True)
+        extra_t = [norm(e) for e, _ in ats if not (isinstance(e, ast.Compare) and isinstance(e.comparators[0], ast.Constant)
+                                                 and e.comparators[0].value in (0, b"\x00"))]
+        if extra_t:
+            bounded.append("while " + norm(w.test))
+    for n_ in walk(rnt.node):
+        if isinstance(n_, ast.Subscript) and isinstance(n_.slice, ast.Slice) and n_.slice.upper is not None and \
+                isinstance(getattr(n_, "_parent", None), ast.Attribute) and n_._parent.attr in ("find", "index"):
+            bounded.append(norm(n_))
+    ctx.ob("C13.R2", "fast reader's NUL-terminated read has no length bound (the template's CStr has none)", not bounded,
+           rnt.where, f"the terminator search is limited by {bounded}: a longer string is decoded by the template and "
+           f"rejected or cut by the fast reader")
     # strict text decoding on both sides
     cstr = repo.cls("CStr", SER)
     des = cstr.methods.get("deserialize")
@@ -682,20 +789,7 @@ def run(ctx):
         bad = a0 is not None and "_ser_cache" in src(a0) or (a0 is not None and any(isinstance(x, ast.Call) and (ap(x.func) or "").endswith("deserialize_var") for x in ast.walk(a0)))
         ctx.ob("C13.R3", f"caller passes the raw payload: {norm(c)}", not bad, f"{OBJ}:{c.lineno}",
                "the normaliser must decode the payload bytes itself (fast reader), not reuse a deserialised template value")
-    # the three wire components of a packed rotation are kept exactly as read (W is derived, X/Y/Z never recomputed)
-    qc = repo.cls("Quaternion", "hippolyzer/lib/base/datatypes.py")
-    qi = qc.methods.get("__init__")
-    ctx.require(qi is not None, "datatypes.Quaternion.__init__ vanished")
-    qparams = [a.arg for a in qi.node.args.args if a.arg != "self"][:3]
-    from ..core import stores as _st2
-    for comp in qparams:
-        sts = [x for x in _st2(qi.node, into_defs=False) if x.path in (f"self.{comp}", comp)]
-        ok = len(sts) == 1 and sts[0].path == f"self.{comp}" and sts[0].value is not None and \
-            (ap(sts[0].value) == comp or (isinstance(sts[0].value, ast.Call) and ap(sts[0].value.func) == "float"
-                                          and len(sts[0].value.args) == 1 and ap(sts[0].value.args[0]) == comp))
-        ctx.ob("C13.R2", f"Quaternion.__init__ stores component {comp} exactly as given", ok, qi.where,
-               f"{[norm(x.node) for x in sts]}: both decoders build rotations through this constructor; recomputing a wire "
-               f"component changes the re-encoded payload")
+    r2(ctx)
     # endianness
     base = repo.cls("BaseSubfieldSerializer", SER)
     e_node = repo.class_attr(tci, "ENDIANNESS")
@@ -756,3 +850,27 @@ def r4(ctx):
                        ok, ctx.w(f, x), f"the entry is skipped on {sorted(names - size_names) or 'no condition'} before its "
                        f"{'/'.join(sorted(size_names))} payload bytes are consumed: the next header is read from inside the payload")
     ctx.ob("C13.R4", "from_file: payload read follows the header reads in the entry loop", True, ctx.w(f, pr))
+
+
+def r2(ctx):
+    """The separately callable part of C13.R2: Quaternion.__init__ keeps the three wire components exactly as given
+    (W is derived; X/Y/Z are never recomputed).  Every decoder - the compressed-object readers and the template data
+    packer's LLQuaternion unpacker - builds rotations through this constructor."""
+    repo = ctx.repo
+    ctx.rule("C13.R2", "adapters/constructors applied by the fast path are the ones the template names for that "
+                       "field; text decoding is strict on both sides; byte order equal; gate flags are "
+                       "CompressedFlags members tested against the Flags field")
+    # the three wire components of a packed rotation are kept exactly as read (W is derived, X/Y/Z never recomputed)
+    qc = repo.cls("Quaternion", "hippolyzer/lib/base/datatypes.py")
+    qi = qc.methods.get("__init__")
+    ctx.require(qi is not None, "datatypes.Quaternion.__init__ vanished")
+    qparams = [a.arg for a in qi.node.args.args if a.arg != "self"][:3]
+    from ..core import stores as _st2
+    for comp in qparams:
+        sts = [x for x in _st2(qi.node, into_defs=False) if x.path in (f"self.{comp}", comp)]
+        ok = len(sts) == 1 and sts[0].path == f"self.{comp}" and sts[0].value is not None and \
+            (ap(sts[0].value) == comp or (isinstance(sts[0].value, ast.Call) and ap(sts[0].value.func) == "float"
+                                          and len(sts[0].value.args) == 1 and ap(sts[0].value.args[0]) == comp))
+        ctx.ob("C13.R2", f"Quaternion.__init__ stores component {comp} exactly as given", ok, qi.where,
+               f"{[norm(x.node) for x in sts]}: both decoders build rotations through this constructor; recomputing a wire "
+               f"component changes the re-encoded payload")
